@@ -410,6 +410,21 @@ impl<CS: CLCiphersuite> ZKPoK<CL03<CS>> {
             return false;
         }
 
+        // a trusted commitment is checked under the commitment key it was made with: one without the other is not a
+        // statement the issuer can verify (silently skipping the check would let any trusted commitment through)
+        if C_trusted.is_some() != commitment_pk.is_some() {
+            return false;
+        }
+        // commitments are elements of Z_N^*, given by their reduced representative
+        if C.value <= 0 || C.value >= signer_pk.N {
+            return false;
+        }
+        if let (Some(C_trusted), Some(commitment_pk)) = (C_trusted, commitment_pk) {
+            if C_trusted.value <= 0 || C_trusted.value >= commitment_pk.N {
+                return false;
+            }
+        }
+
         let mut boolean_C_Ctrusted: bool = true;
         if let Some(C_trusted) = C_trusted {
             if let Some(commitment_pk) = commitment_pk {
